@@ -354,6 +354,9 @@ func init() {
 			spec += fmt.Sprintf("/%d", leaf)
 		}
 		cs := c07case{Kind: "depth", Entry: e.name, Spec: spec}
+		if c.Skipped(string(ev.J(cs))) {
+			return // an earlier start of this shard died here: attributed by the driver
+		}
 		c.SetCase(string(ev.J(cs)))
 		r.Evaluations++
 		t0 := time.Now()
@@ -388,6 +391,9 @@ func init() {
 					f func(interface{}) ([]byte, error)
 				}{{"Marshal", sonic.Marshal}, {"ConfigStd.Marshal", sonic.ConfigStd.Marshal}, {"Encode(all-options)", func(v interface{}) ([]byte, error) { return encoder.Encode(v, encOpts(511)) }}} {
 					cs := c07case{Kind: "encode", Entry: api.n, Spec: ec.name}
+					if c.Skipped(string(ev.J(cs))) {
+						continue
+					}
 					c.SetCase(string(ev.J(cs)))
 					r.Evaluations++
 					out, err, pan := safeMarshal(api.f, ec.mk())
@@ -470,7 +476,11 @@ func init() {
 				for ei := range entries {
 					e := &entries[ei]
 					r.Evaluations++
-					c.SetCase(fmt.Sprintf(`{"kind":"doc","entry":%q,"doc_hex":"%x"}`, e.name, doc))
+					cd := fmt.Sprintf(`{"kind":"doc","entry":%q,"doc_hex":"%x"}`, e.name, doc)
+					if c.Skipped(cd) {
+						continue
+					}
+					c.SetCase(cd)
 					if v, d := c07run(e, doc); v != "" {
 						r.Violate(viol("doc", e.name, v, d+fmt.Sprintf(" doc=%q", clip(doc, 60)), c07case{Kind: "doc", Entry: e.name, Doc: fmt.Sprintf("%x", doc)}))
 					}
